@@ -191,8 +191,10 @@ PROPS["C01"] = {
              "Sweep: honest handshake where message k is preceded by a copy with one byte ^01/^80/:=00/:=FF or truncated at every offset. "
              "Degenerate attacker (enumerated and sampled): an adversary without any exponent runs the exchange in either role with DH value 1, p-1, 0 or p+1, guessing the shared secret 1/p-1/0, optionally sending an in-range value after the refused one, against plaintext and encrypted victims."),
     "assumptions": COMMON_ASSUME,
-    "exhaustive_checks": ["C01sweep", "C01degenerate"],
+    "exhaustive_checks": ["C01stray", "C01restart", "C01sweep", "C01degenerate"],
     "tests": [
+        {"name": "TestProp_C01_Stray", "kind": "plain", "quick": {"shards": 8, "timeout": 600}, "thorough": {"shards": 8, "timeout": 3000}},
+        {"name": "TestProp_C01_Restart", "kind": "plain", "quick": {"shards": 4, "timeout": 600}, "thorough": {"shards": 4, "timeout": 3000}},
         {"name": "TestProp_C01_Attack", "quick": {"shards": 8, "checks": 100, "timeout": 500}, "thorough": {"shards": 16, "checks": 2500, "timeout": 3000}},
         {"name": "TestProp_C01_Sweep", "kind": "plain", "quick": {"shards": 8, "timeout": 500}, "thorough": {"shards": 16, "timeout": 3000}},
         {"name": "TestProp_C01_Degenerate", "kind": "plain", "quick": {"shards": 4, "timeout": 500}, "thorough": {"shards": 8, "timeout": 3000}},
@@ -393,6 +395,7 @@ _EXTRA = {
     "C08": " Added: C08faults - one party's randomness fails from read k on (k=0..14, persistent or one-shot, error or short read) during a handshake; secrets of an exchange the party has left must be gone, decided by presenting the refused final message once more on a healed source.",
     "C07": " Added: for Send under required encryption the trigger is repeated (1x quick, 2x thorough) at every point of every schedule.",
     "C12": " Added: C12sync - two real otr3 parties: every sequence of up to 3 (thorough: 4) steps over {start, answer asked-or-not, abort, deliver, lose} by either user, then AbortAuthentication and a fresh run by either user, which must succeed on both sides; a StartAuthenticate that fails for lack of randomness, idle or mid-run.",
+    "C01": " Added: C01stray - every point of a handshake (fresh or inside a running session) x either receiver x every message of a recorded earlier exchange, addressed as the receiver expects, then the final probe; C01restart - a session with traffic, a client restart of either side (same key and instance tag), a new exchange, either side speaking first.",
     "C04": " Added: 'sk' arms a D-H key whose public value has a zero top byte; session configurations arm 0-3 such keys per party in a quarter of the cases.",
 }
 for _k, _v in _EXTRA.items():
